@@ -73,7 +73,7 @@ func propC19(c *Ctx) propInfo {
 	c.tonProofLayout()
 	c.proofDataflow()
 	c.hashSingleImplementation() // compareStateInitWithAddress trusts Cell.Hash of a parsed state-init
-	c.walletConfigFlow() // the state-init the key is taken from must hash to the address: both come from the wallet package
+	c.walletConfigFlow()         // the state-init the key is taken from must hash to the address: both come from the wallet package
 	return propInfo{
 		explanation: "Static structural clauses of C19 (DESIGN.md §4 C19): every accepting exit of CheckProof is dominated by the passing edges of payload check, lifetime comparison, domain check, signature verification, and the state-init key extraction is dominated by the state-init/address comparison; CheckPayload accepts only through the constant-time MAC comparison, the expiry comparison and the length check; signed-message byte layout equals the spec; no panic is reachable from the entry points; error discipline in package tonconnect. Decides these necessary conditions, not unforgeability.",
 		assumptions: []string{"ed25519/HMAC/SHA-256 behave as documented", "the clock is not modelled"},
@@ -109,7 +109,7 @@ func (c *Ctx) tonProofLayout() {
 			outer := c.assembled(f, sums[1].Call.Args[0])
 			gotI := strings.Join(inner, " | ")
 			gotO := strings.Join(outer, " | ")
-			wantI := `"ton-proof-item-v2/" | buf4{BE32[:](uint32<-int32 workChain)} | field:address | buf4{LE32[:](uint32<-int len(*message.domain))} | field:domain | buf8{LE64[:](uint64<-int64 ts)} | field:payload`
+			wantI := `"ton-proof-item-v2/" | buf4{BE32[:](uint32<-int32 workChain)} | field:address | buf4{LE32[:](uint32<-int len(.domain))} | field:domain | buf8{LE64[:](uint64<-int64 ts)} | field:payload`
 			c.check(gotI == wantI, R, "ton-proof item = prefix | wc BE32 | addr | len(domain) LE32 | domain | ts LE64 | payload", sums[0].Pos(), gotI,
 				"createMessage assembles the signed item as\n      "+gotI+"\n    the ton-proof format is\n      "+wantI)
 			okO := len(outer) == 3 && outer[0] == "lit{ff ff}" && outer[1] == `"ton-connect"` && outer[2] == "call:crypto/sha256.Sum256"
